@@ -464,8 +464,10 @@ func (e *EdgeQuery) findEdgesInternal(target distanceTarget, opts *queryOptions)
 	// distanceLimit < maxError, this reduces the distance limit to 0,
 	// i.e. all remaining candidate cells and edges can safely be discarded.
 	// (This is how IsDistanceLess() and friends are implemented.)
-	targetUsesMaxError := opts.maxError != target.distance().zero().chordAngle() &&
-		e.target.setMaxError(opts.maxError)
+	// The target is always told the error permitted for this call, so that a
+	// target object reused after a call with a larger error (for example
+	// IsDistanceLess) does not go on using that error.
+	targetUsesMaxError := e.target.setMaxError(opts.maxError) && opts.maxError != 0
 
 	// Note that we can't compare maxError and distanceLimit directly
 	// because one is a Delta and one is a Distance. Instead we subtract them.
